@@ -685,6 +685,26 @@ ROUNDS = [
     [("PU1", "Open", 0), ("P1", "Closed", 1), ("P5", "Closed", 0), ("P4", "Open", 0), ("V1", "Closed", 1), ("P7", "Open", 0), ("V2", "Active", 0), ("P3", "Closed", 0)],
     [("P1", "Open", 0), ("PU1", "Closed", 1), ("V1", "Active", 0), ("P11", "Open", 0), ("P13", "Closed", 0), ("V2", "Closed", 1), ("P3", "Open", 0)],
 ]
+#  generated rounds: every link toggled ALONE (closed <-> not closed) twice over, so that every member of every multi-link node pair changes while its
+#  siblings stay as they are, in both states of the siblings; then subsets drawn by a fixed linear congruential sequence
+def _generated_rounds():
+    out = []
+    names = [l[0] for l in LINKS]
+    for rep in range(2):
+        for k, nm in enumerate(names if rep == 0 else names[::-1]):
+            out.append([(nm, "toggle", (k + rep) % 2)])
+    x = 12345
+    for r in range(14):
+        pick = []
+        for j in range(1 + r % 3):
+            x = (1103515245 * x + 12345) % (2 ** 31)
+            nm = names[(x >> 8) % len(names)]
+            if nm not in [p_[0] for p_ in pick]:
+                pick.append((nm, "toggle", (x >> 4) % 2))
+        out.append(pick)
+    return out
+
+
 #  statuses found by a second run on the same simulator: the definition state again, plus edits made while paused
 RESET_EDITS = [("P2", "Open", 0), ("P1", "Closed", 0), ("P6", "Open", 0), ("V1", "Closed", 0), ("P9", "Closed", 1), ("P10", "Open", 0)]
 OTHER_CHANGES = [("V1", "setting"), ("J1", "leak_status"), ("T1", "leak_status"), ("PU2", "base_speed")]
@@ -983,19 +1003,21 @@ def run(repo, chk):
             raise ExtractError("WNTRSimulator: expected exactly one ControlChangeTracker attribute after construction, found %d" % len(trackers))
         tracker = trackers[0]
         prev = ([], [])
-        steps = ["initialisation", "update after round 1 of status changes", "update after round 2 of status changes",
-                 "rebuild on the used simulator after statuses were changed outside any run"]
+        rounds = ROUNDS + (_generated_rounds() if not stale else [])
+        steps = ["initialisation"] + ["update after round %d of status changes%s" % (k + 1, "" if k < len(ROUNDS) else " (%s)" % ", ".join(r_[0] for r_ in rounds[k]))
+                                      for k in range(len(rounds))] + ["rebuild on the used simulator after statuses were changed outside any run"]
+        last = len(steps) - 1
         for step, what in enumerate(steps):
             tag = "%s, %s" % (label, what)
             fails = None
-            rule_g = "R-C09-6" if step == 3 else "R-C09-1"
+            rule_g = "R-C09-6" if step == last else "R-C09-1"
             try:
                 if step == 0:
                     where = "_initialize_internal_graph"
                     it.getattr_(sim, "_initialize_internal_graph")()
                     for k in ("graph", "model"):
                         tracker.set_reference_point(k)
-                elif step == 3:
+                elif step == last:
                     # what run_sim finds when the simulator object is used again (reset_initial_values, an edit while paused): the statuses differ
                     # from those the graph was left with and no control action told the change tracker
                     for lk, kind, a_, b_, st, variant in LINKS:
@@ -1007,8 +1029,10 @@ def run(repo, chk):
                     for k in ("graph", "model"):
                         tracker.reset_reference_point(k)
                 else:
-                    for lk, st, variant in ROUNDS[step - 1]:
+                    for lk, st, variant in rounds[step - 1]:
                         l = wn.get_link(lk)
+                        if st == "toggle":
+                            st = ("Active" if isinstance(l, MValve) else "Open") if l.status == LS.Closed else "Closed"
                         l.set_effective(getattr(LS, st), variant)
                         tracker.record(l, "status")
                     for nm, attr in OTHER_CHANGES:
@@ -1057,7 +1081,7 @@ def run(repo, chk):
                      ("sources", "the sources of the search are all tanks and all reservoirs"),
                      ("spurious", "only node pairs joined by a link are connected")]
             for cat, text in texts:
-                chk.expect(not gf[cat], rule_g, "[%s] %s" % (tag, text), loc(ig if step in (0, 3) else ug),
+                chk.expect(not gf[cat], rule_g, "[%s] %s" % (tag, text), loc(ig if step in (0, last) else ug),
                            "the search follows an entry iff it is 1: a non-closed link must give 1 whatever else is true of it (stale _is_isolated flag, initial_status, "
                            "_user_status/_internal_status representation), a closed one 0 unless a parallel link is open", found="; ".join(gf[cat][:4]) or None)
             # ---- flag life cycle, judged against the indicator the search left behind
